@@ -38,6 +38,9 @@ pub enum Variant {
     Joiner(u8),
     /// the successor stops taking the token after some visits
     NsRemoved,
+    /// the token gets lost while the successor holds it: the station re-claims it and must scan its
+    /// whole (current) GAP right away
+    TokenLost,
 }
 
 struct G<'a> {
@@ -161,9 +164,68 @@ pub fn gap_case(rep: &mut Report, seed: u64, idx: u64, ts: u8, ns: u8, hsa: u8, 
     let mut first_sweep_seen = false;
     let mut expect_token_to: Option<u8> = None;
     let mut token_at_env = !alone; // after the scan the token went to NS (or stayed)
+    let lost_at = if variant == Variant::TokenLost && !alone { Some(2 + rng.usize(n_visits / 2)) } else { None };
     for visit in 0..n_visits {
         if g.failed || g.panicked() {
             return;
+        }
+        if token_at_env && lost_at == Some(visit) {
+            // the successor takes the token (it is heard), then the token vanishes
+            let other = (0..126u8).rev().find(|a| *a != ts && !env_ring.contains(a)).unwrap();
+            let rq = g.rig.status_request(env_ring[0], other);
+            g.rig.env_tel(&rq, 40);
+            let dl = g.rig.now() + cfg.token_lost_timeout() + cfg.tslot() + 4 * cfg.lat();
+            for k in 0..2 {
+                let Some(f) = g.rig.next_station_tx(dl) else {
+                    if !g.panicked() {
+                        g.viol("C12/setup/no-reclaim-after-token-loss", format!("the bus stayed silent but the station did not claim the token within its time-out (claim token {})", k + 1));
+                    }
+                    return;
+                };
+                if !is_token(&f, ts, ts) {
+                    g.viol("C12/setup/no-reclaim-after-token-loss", format!("expected a claim token, got {:?}", f.decoded.map(|t| t.short())));
+                    return;
+                }
+            }
+            // post-claim scan of the current GAP, in one holding
+            let mut scan2: Vec<u8> = Vec::new();
+            loop {
+                let dl = g.rig.now() + cfg.tslot() + 2 * cfg.lat();
+                let Some(f) = g.rig.next_station_tx(dl) else {
+                    if !g.panicked() {
+                        g.viol("C12/G2/post-claim-scan-stalls", format!("no transmission for a slot time during the scan after re-claiming (polled {:?})", scan2));
+                    }
+                    return;
+                };
+                if let Some(a) = is_status_req_to(&f) {
+                    scan2.push(a);
+                    g.rep.count("C12_post_claim_polls_checked");
+                    continue;
+                }
+                match &f.decoded {
+                    Some(RTel::Token { sa, da }) if *sa == ts => {
+                        if scan2 != gap {
+                            g.viol("C12/G2/post-claim-scan-incomplete", format!("after re-claiming the token the station polled {:?} but its GAP between TS {} and NS {} is {:?}", scan2, ts, cur_ns, gap));
+                            return;
+                        }
+                        if *da != cur_ns {
+                            g.viol("C12/token-to-wrong-station", format!("after the re-claim scan the token went to #{} but NS is #{}", da, cur_ns));
+                            return;
+                        }
+                        break;
+                    }
+                    other => {
+                        g.viol("C12/unexpected-frame-while-holding", format!("{:?}", other.as_ref().map(|t| t.short())));
+                        return;
+                    }
+                }
+            }
+            g.rep.count("C12_reclaim_scans_checked");
+            // GAP bookkeeping starts afresh after the scan
+            since_polled = gap.iter().map(|a| (*a, 0usize)).collect();
+            sweep_pos = None;
+            pause = 0;
+            first_sweep_seen = false;
         }
         // hand the token back to TS
         if token_at_env {
@@ -522,6 +584,7 @@ pub fn c12(ctx: &mut Ctx) {
                 let variant = match v[5] {
                     0 => Variant::Plain,
                     2 | 3 => Variant::Joiner(v[5] as u8),
+                    7 => Variant::TokenLost,
                     _ => Variant::NsRemoved,
                 };
                 gap_case(&mut ctx.rep, s, v[0], v[1] as u8, v[2] as u8, v[3] as u8, v[4] as u8, variant, true);
@@ -541,7 +604,7 @@ pub fn c12(ctx: &mut Ctx) {
         for ts in 0..hsa {
             for ns in 0..hsa {
                 for gf in [1u8, 3] {
-                    for (vc, variant) in [(0u64, Variant::Plain), (2, Variant::Joiner(2)), (3, Variant::Joiner(3)), (9, Variant::NsRemoved)] {
+                    for (vc, variant) in [(0u64, Variant::Plain), (2, Variant::Joiner(2)), (3, Variant::Joiner(3)), (9, Variant::NsRemoved), (7, Variant::TokenLost)] {
                         idx += 1;
                         if !ctx.mine(idx) {
                             continue;
@@ -575,7 +638,7 @@ pub fn c12(ctx: &mut Ctx) {
         let gf = *rng.pick(&[1u8, 2, 5, 10, 40, 100]);
         // keep the run length sane
         let gf = if hsa > 40 { gf.min(10) } else { gf };
-        let (vc, variant) = *rng.pick(&[(0u64, Variant::Plain), (2, Variant::Joiner(2)), (3, Variant::Joiner(3)), (9, Variant::NsRemoved)]);
+        let (vc, variant) = *rng.pick(&[(0u64, Variant::Plain), (2, Variant::Joiner(2)), (3, Variant::Joiner(3)), (9, Variant::NsRemoved), (7, Variant::TokenLost)]);
         ctx.rep.cur_case = format!("c12g {} {} {} {} {} {} seed {}", i, ts, ns, hsa, gf, vc, seed);
         gap_case(&mut ctx.rep, seed, i, ts, ns, hsa, gf, variant, false);
     }
